@@ -37,6 +37,7 @@ func init() {
 }
 
 func checkC06(c *Ctx) {
+	checkRootForwarders(c)
 	checkFilterSubscriptionTable(c)
 	checkFilterSubscriptionFlows(c)
 	checkFilterPublisherFlows(c)
@@ -147,6 +148,7 @@ func init() {
 }
 
 func checkC05(c *Ctx) {
+	checkRootForwarders(c)
 	if c.Tier == "thorough" {
 		checkCallersVTA(c)
 	}
@@ -184,6 +186,7 @@ func init() {
 var rootRels = []string{"", "join", "client"}
 
 func checkC12(c *Ctx) {
+	checkRootForwarders(c)
 	runs := findRunFuncs(c.P, rootRels)
 	c.check(len(runs) >= 9, "T-ONCE(ShutdownInitiated)", "run-functions", "-", fmt.Sprintf("%d run functions", len(runs)), fmt.Sprintf("found %d functions deferring ShutdownCompleted, hand-confirmed 9", len(runs)))
 	checkLifecycleOnce(c, runs)
@@ -204,6 +207,7 @@ func checkC12(c *Ctx) {
 }
 
 func checkC11(c *Ctx) {
+	checkRootForwarders(c)
 	checkStopWiring(c)
 	checkCloseForwarding(c, append([]string{"", "join"}, typedRelsQuick(c)...))
 	checkCloseOwners(c)
